@@ -1,0 +1,48 @@
+//go:build verif
+
+// Package verifhooks re-exports entry points of internal/ packages for the
+// external verification harness. It is compiled only with the "verif" build tag.
+package verifhooks
+
+import (
+	"context"
+	"time"
+
+	"github.com/atlassian/gostatsd"
+	"github.com/atlassian/gostatsd/internal/flush"
+	"github.com/atlassian/gostatsd/internal/lexer"
+	"github.com/atlassian/gostatsd/internal/pool"
+	"github.com/atlassian/gostatsd/internal/util"
+)
+
+// Lexer wraps an internal lexer.Lexer with its own metric pool.
+type Lexer struct {
+	l lexer.Lexer
+}
+
+// NewLexer returns a lexer backed by a fresh metric pool.
+func NewLexer(estimatedTags int) *Lexer {
+	return &Lexer{l: lexer.Lexer{MetricPool: pool.NewMetricPool(estimatedTags)}}
+}
+
+// Run lexes one line, exactly as DatagramParser.parseLine does.
+func (l *Lexer) Run(input []byte, namespace string) (*gostatsd.Metric, *gostatsd.Event, error) {
+	return l.l.Run(input, namespace)
+}
+
+// FlushCoordinator is internal/flush.Coordinator.
+type FlushCoordinator = flush.Coordinator
+
+// Flushable is internal/flush.Flushable.
+type Flushable = flush.Flushable
+
+// NewFlushCoordinator is internal/flush.NewFlushCoordinator.
+func NewFlushCoordinator() FlushCoordinator { return flush.NewFlushCoordinator() }
+
+// AlignedTicker is internal/util.AlignedTicker.
+type AlignedTicker = util.AlignedTicker
+
+// NewAlignedTickerWithContext is internal/util.NewAlignedTickerWithContext.
+func NewAlignedTickerWithContext(ctx context.Context, interval, offset time.Duration) *AlignedTicker {
+	return util.NewAlignedTickerWithContext(ctx, interval, offset)
+}
